@@ -181,4 +181,10 @@ theorem filtration_eq_collapseAux (blank : Nat) (last : Option Nat) (hl : last â
           List.singleton_append]
         rw [ih (some c) hsc]
 
+theorem groupHeads_length_le (am : List Nat) : (groupHeads am).length â‰¤ am.length := by
+  fun_induction groupHeads am <;> simp_all <;> omega
+
+theorem groupHeads_mem (am : List Nat) : âˆ€ x âˆˆ groupHeads am, x âˆˆ am := by
+  fun_induction groupHeads am <;> simp_all
+
 end Greedy
